@@ -84,6 +84,14 @@ example : (mergeAll lexsortIdx [wsB, wsA]).map (cellItemsOf · ["c"] "TRIANGLE")
     some [⟨"TRIANGLE", [[0, 0], [1, 1], [0, 1]], [("c", [8])]⟩,
           ⟨"TRIANGLE", [[0, 0], [1, 0], [1, 1]], [("c", [7])]⟩] := by decide
 
+-- the driver's Bool hypothesis holds on these pieces, so `C06_hyp_sound` yields `PieceOk` for both
+example : mergeHyp [wsB, wsA] = true := by decide
+example : ∃ (rsC rsP : String → Nat) (dtC dtP : String → DType), ∀ f ∈ [wsB, wsA],
+    PieceOk f 2 ["c"] ["p"] rsC rsP dtC dtP :=
+  C06_hyp_sound wsB [wsA] (by decide)
+-- a piece with coincident points fails the hypothesis (and is outside the theorems)
+example : mergeHyp [⟨⟨2, [[0, 0], [0, 0]], []⟩, [], []⟩] = false := by decide
+
 /-! ### index remapping, duplicate search -/
 
 -- local points 1 and 3 are duplicates of global points 7 and 2; offset 10
@@ -126,8 +134,63 @@ example : pvtrOrdinates (structuredDecomposition [[0, 1, 0, 1, 0, 0], [1, 3, 0, 
 -- order: the z ordinates are those of the whole grid
 example : pvtrOrdinates (structuredDecomposition [[0, 1, 0, 0, 1, 3], [0, 1, 0, 0, 0, 1]])
     [[[0, 10], [0], [5, 6, 7]], [[0, 10], [0], [0, 5]]] = some [[0, 10], [0], [0, 5, 6, 7]] := by decide
--- hypotheses of `C06_pvtr_line` / `C06_pvtr_ordinates_partial` are satisfiable
+-- hypotheses of `C06_pvtr_line` / `C06_pvtr_ordinates_given_consulted` are satisfiable
 example : axisPieces [0, 5, 6, 7] 0 [1, 2] = [[0, 5], [5, 6, 7]] ∧
     assembleLine (List.replicate 4 0) (axisPieces [0, 5, 6, 7] 0 [1, 2]) = some [0, 5, 6, 7] := by decide
+
+
+/-! ### three-axis decomposition recovery and the whole structured read (non-vacuity) -/
+
+/-- an x–z grid (y flat): 3 cells in x cut into 1 + 2, 2 cells in z in one piece; extents shifted -/
+def wd3 : List (List Nat) := [[1, 2], [0], [2]]
+def wOrigin : List Int := [3, -2, 0]
+/-- the two pieces, listed in reverse order -/
+def wL : List (List Nat) := [[1, 0, 0], [0, 0, 0]]
+
+example : decompOk wd3 = true ∧ wL.Perm (locationsIn (piecesShape wd3)) := by decide
+example : meshedDirs wd3 = [0, 2] ∧ mergerOf wd3 = [[1, 2], [2]] ∧
+    wL.map (pieceExtent wd3 wOrigin) = [[4, 6, -2, -2, 0, 2], [3, 4, -2, -2, 0, 2]] ∧
+    wholeExtent wd3 wOrigin = [3, 6, -2, -2, 0, 2] := by decide
+-- what `C06_decomposition` states, observed on this instance
+example : (structuredDecomposition (wL.map (pieceExtent wd3 wOrigin))).cellsPerAxis = [[1, 2], [0], [2]] ∧
+    (structuredDecomposition (wL.map (pieceExtent wd3 wOrigin))).pieceLocations = [[1, 0], [0, 0]] ∧
+    (structuredDecomposition (wL.map (pieceExtent wd3 wOrigin))).domainIdChecked [0, 0] = some 1 ∧
+    (structuredDecomposition (wL.map (pieceExtent wd3 wOrigin))).domainIdChecked [1, 0] = some 0 ∧
+    (structuredDecomposition (wL.map (pieceExtent wd3 wOrigin))).domainIdChecked [2, 0] = none := by decide
+
+/-- a whole `.vtr` file over that lattice: 4 x 1 x 3 points, an int32 point field with two components,
+    a float64 cell field -/
+def wRect : SFile :=
+  ⟨[3, 6, -2, -2, 0, 2], .rect [[0, 10, 20, 30], [7], [0, 5, 6]],
+   [("p", ⟨.int true 32, [12, 2], (List.range 24).map Int.ofNat⟩)],
+   [("c", ⟨.flt f64, [6], [60, 61, 62, 63, 64, 65]⟩)]⟩
+
+example : wholeOk wRect wd3 wOrigin = true := by decide
+-- the piece files: piece (1,0,0) carries x = 10..30 and 9 of the 12 points
+example : (pieceFile wRect wd3 wOrigin [1, 0, 0]).geom = .rect [[10, 20, 30], [7], [0, 5, 6]] ∧
+    (pieceFile wRect wd3 wOrigin [1, 0, 0]).cellFields = [("c", ⟨.flt f64, [4], [61, 62, 64, 65]⟩)] ∧
+    (pieceFile wRect wd3 wOrigin [0, 0, 0]).geom = .rect [[0, 10], [7], [0, 5, 6]] := by decide
+-- all hypotheses of `C06_structured` hold together: the theorem applies …
+example : pvtkReadStructured UNIT (wL.map (pieceFile wRect wd3 wOrigin)) = some (wholeRead UNIT wRect) :=
+  C06_structured UNIT wRect wd3 wOrigin wL (by decide) (by decide) (by decide)
+-- … and its conclusion is observable (dtypes int32 / float64 and the ordinate 7 of the flat direction kept)
+example : (pvtkReadStructured UNIT (wL.map (pieceFile wRect wd3 wOrigin))).map (·.mesh) =
+      some (.rect [3, 0, 2] [[0, 10, 20, 30], [7], [0, 5, 6]]) ∧
+    (pvtkReadStructured UNIT (wL.map (pieceFile wRect wd3 wOrigin))).map (·.cellFields) =
+      some [("c", ⟨.flt f64, [6], [60, 61, 62, 63, 64, 65]⟩)] := by decide
+
+/-- the same lattice as an image file with a basis that is not the identity (U = 2 fractional bits to keep
+    the numbers small: 4 units = 1.0) -/
+def wImage : SFile := ⟨[3, 6, -2, -2, 0, 2], .image [4, 0, -8] [4, 2, 8] [[0, -4, 0], [4, 0, 0], [0, 0, 4]], [], []⟩
+example : wholeOk wImage wd3 wOrigin = true := by decide
+-- merged grid = whole grid: origin = Origin + B·(spacing ∘ (3, -2, 0)) = (1 + 1, 0 + 3, -2 + 0)
+example : pvtkReadStructured 2 (wL.map (pieceFile wImage wd3 wOrigin)) = some (wholeRead 2 wImage) ∧
+    (wholeRead 2 wImage).mesh =
+      .image ⟨[3, 0, 2], [8, 12, -8], [4, 2, 8], [[0, -4, 0], [4, 0, 0], [0, 0, 4]]⟩ := by decide
+
+-- a listing that omits a piece is not covered by the theorems (and indeed reads as something else)
+example : ¬ [[1, 0, 0]].Perm (locationsIn (piecesShape wd3)) := by decide
+example : pvtkReadStructured UNIT ([[1, 0, 0]].map (pieceFile wRect wd3 wOrigin)) ≠ some (wholeRead UNIT wRect) := by
+  decide
 
 end Fc.C06
